@@ -147,14 +147,11 @@ fn model_lines(out: &mut Out, rng: &mut Rng, thorough: bool) {
         out.bucket("rrecon");
         out.case(&format!("rrecon {kr}"), &format!("p={:08x} e={}", p as u32, show_opt(pow2_exp(p as u32))), fail.as_deref(), true);
     }
-    // reachable k: the code's own range reduction at the largest |x| below the 104 cutoff
+    // reachable k: the REAL range reduction (probe) at the largest |x| below the 104 cutoff
     {
-        let magic = 12582912.0f32;
-        let mut kmax = 0i64;
-        for x in [f32::from_bits(104.0f32.to_bits() - 1), -f32::from_bits(104.0f32.to_bits() - 1)] {
-            let j = x.mul_add(std::f32::consts::LOG2_E, magic) - magic;
-            kmax = kmax.max((j as i32).abs() as i64);
-        }
+        let below = f32::from_bits(104.0f32.to_bits() - 1);
+        let (_, tr) = vm::verif::trace_exp_factors(|| map_op(&exp, &[below, -below]));
+        let kmax = tr.iter().take(2).map(|t| (t.0 as i64).abs()).max().unwrap_or(-1);
         out.bucket("kreach");
         out.case("kreach", &kmax.to_string(), None, true);
     }
@@ -493,6 +490,35 @@ fn sweeps(out: &mut Out, args: &Args) {
     }
 }
 
+/// Fixed single-point cases: the worst inputs found by the exhaustive (thorough) sweep, so that
+/// the quick tier reproduces the open findings too, plus the band 88.72 < |x| < 104 where `Exp`
+/// reaches +inf / 0 by arithmetic rather than through its selects (oracle-only: the select model
+/// says nothing about these inputs).
+fn fixed_cases(out: &mut Out, rng: &mut Rng) {
+    let fs = funcs();
+    let by = |n: &str| fs.iter().find(|f| f.name == n).unwrap();
+    let fixed: [(&str, u32); 12] = [
+        ("tanh", 0x3ef2414f), ("tanh", 0xbef2414f), ("sin", 0x4731b5f6), ("sin", 0xc731b5f6), ("exp", 0x33800000), ("sigmoid", 0xc18518c0),
+        ("erf", 0x3d297c20), ("cos", 0x462b60ff), ("tanh", 0x00000000), ("tanh", 0x80000000), ("exp", 0x42d00000), ("exp", 0xc2d00000),
+    ];
+    for (name, bits) in fixed {
+        let f = by(name);
+        let r = check_block(f, bits, 1, 1);
+        out.bucket("fixed");
+        out.case(&format!("# fixed {} x={:08x}", name, bits), &format!("max_err={:.4e} at={:08x}", r.max_err, r.max_at), r.fail.as_deref(), true);
+    }
+    let f = by("exp");
+    let mut band: Vec<f32> = vec![88.72, 88.73, 89.0, 103.99, f32::from_bits(104.0f32.to_bits() - 1), -103.28, -103.5, -103.97, -103.98, -f32::from_bits(104.0f32.to_bits() - 1)];
+    for _ in 0..400 {
+        band.push(if rng.chance(1, 2) { 88.72 + rng.f32_unit() * 15.28 } else { -103.28 - rng.f32_unit() * 0.72 });
+    }
+    for x in band {
+        let r = check_block(f, x.to_bits(), 1, 1);
+        out.bucket("band_exp");
+        out.case(&format!("# band exp x={:08x}", x.to_bits()), &format!("max_err={:.4e}", r.max_err), r.fail.as_deref(), true);
+    }
+}
+
 fn softmax_cases(out: &mut Out, rng: &mut Rng, cases: usize) {
     for ci in 0..cases {
         let cap = if rng.chance(1, 10) { 5000 } else { 70 };
@@ -560,12 +586,13 @@ fn main() {
     let mut rng = Rng::new(args.seed);
     model_lines(&mut out, &mut rng, args.thorough);
     sweeps(&mut out, &args);
+    fixed_cases(&mut out, &mut rng);
     softmax_cases(&mut out, &mut rng, if args.thorough { 20000 } else { 3000 });
     out.finish(
         "Exp two-factor reconstruction for k=-260..260 (+ real Exp probed at x=k*ln2), ReducedRangeExp factor k=-140..140, \
          special/boundary/random inputs for the Exp and Tanh select chains; bit-pattern sweeps (quick: every 256th pattern with a \
          seed-derived offset = 2^24 per function; thorough: all 2^32) of exp, sigmoid, tanh, erf, sin, cos (+ silu, gelu on |x|<=6) \
-         against the documented references and bounds; random softmax vectors (5 value regimes incl. -inf and huge magnitudes). \
+         against the documented references and bounds; fixed worst-case inputs found by the exhaustive sweep and 410 inputs in the band 88.72<|x|<104 (oracle-only); random softmax vectors (5 value regimes incl. -inf and huge magnitudes). \
          The sweeps are exhaustive/strided EXECUTION, not proof.",
     );
 }
